@@ -60,6 +60,58 @@ func isGojaFunc(ci ssa.CallInstruction, name string) bool {
 	return o != nil && o.Pkg() != nil && o.Pkg().Path() == gojaPath && core.FuncName(o) == name
 }
 
+// poolPutArg: ci hands an object to a sync.Pool — directly ((*sync.Pool).Put(pool, x)) or through a one-hop repository
+// wrapper whose body passes its own parameter to Pool.Put — returns the object as seen at ci.
+func poolPutArg(ci ssa.CallInstruction) (ssa.Value, bool) {
+	if isPoolCall(ci, "Put") {
+		return ci.Common().Args[1], true
+	}
+	cf := ci.Common().StaticCallee()
+	if cf == nil || cf.Blocks == nil || !core.InRepo(core.FuncPkg(cf)) || len(cf.Blocks) > 2 {
+		return nil, false
+	}
+	for _, cj := range core.Calls(cf) {
+		if !isPoolCall(cj, "Put") {
+			continue
+		}
+		a := core.Unwrap(cj.Common().Args[1], true)
+		for i, p := range cf.Params {
+			if a == ssa.Value(p) && i < len(ci.Common().Args) {
+				return ci.Common().Args[i], true
+			}
+		}
+	}
+	return nil, false
+}
+
+// poolGetCall: ci obtains an object from a sync.Pool, directly or through a one-hop repository wrapper that returns the
+// result of Pool.Get (possibly type-asserted).
+func poolGetCall(ci ssa.CallInstruction) bool {
+	if isPoolCall(ci, "Get") {
+		return true
+	}
+	cf := ci.Common().StaticCallee()
+	if cf == nil || cf.Blocks == nil || !core.InRepo(core.FuncPkg(cf)) || len(cf.Blocks) > 2 {
+		return false
+	}
+	for _, b := range cf.Blocks {
+		for _, in := range b.Instrs {
+			rt, ok := in.(*ssa.Return)
+			if !ok || len(rt.Results) != 1 {
+				continue
+			}
+			v := rt.Results[0]
+			if ta, ok := v.(*ssa.TypeAssert); ok {
+				v = ta.X
+			}
+			if call, ok := v.(*ssa.Call); ok && isPoolCall(call, "Get") {
+				return true
+			}
+		}
+	}
+	return false
+}
+
 func isPoolCall(ci ssa.CallInstruction, name string) bool {
 	o := core.CalleeObj(ci)
 	return o != nil && o.Pkg() != nil && o.Pkg().Path() == "sync" && core.FuncName(o) == "Pool."+name
@@ -173,7 +225,7 @@ func c20VMPool(c *core.Ctx, rule string) {
 			}
 			scanned[g] = true
 			for _, ci := range core.Calls(g) {
-				if isPoolCall(ci, "Get") || isPoolCall(ci, "Put") {
+				if _, isPut := poolPutArg(ci); isPut || poolGetCall(ci) {
 					usesPool = true
 				}
 				if cf := ci.Common().StaticCallee(); cf != nil && core.InRepo(core.FuncPkg(cf)) {
@@ -279,7 +331,7 @@ func c20VMPool(c *core.Ctx, rule string) {
 				if isGojaMethod(ci, "Object", "Delete") {
 					dels = append(dels, located{d, ci})
 				}
-				if isPoolCall(ci, "Put") {
+				if _, isPut := poolPutArg(ci); isPut {
 					puts = append(puts, located{d, ci})
 				}
 			}
@@ -291,7 +343,7 @@ func c20VMPool(c *core.Ctx, rule string) {
 			if isGojaMethod(ci, "Object", "Delete") {
 				delInline = ci
 			}
-			if isPoolCall(ci, "Put") {
+			if _, isPut := poolPutArg(ci); isPut {
 				putInline = ci
 			}
 		}
@@ -369,7 +421,8 @@ func c20VMPool(c *core.Ctx, rule string) {
 			c.Check(orderOK, rule, key+" Put order", core.InstrPos(putCall), "the VM is returned to the pool only after its globals were wiped", why)
 		}
 		// Put receives the Get result
-		pv := core.Unwrap(putCall.Common().Args[1], true)
+		pvRaw, _ := poolPutArg(putCall)
+		pv := core.Unwrap(pvRaw, true)
 		putOK := false
 		if p, ok := pv.(*ssa.Parameter); ok && putIn.params != nil {
 			if a, ok := putIn.params[p]; ok {
@@ -818,7 +871,7 @@ func c20IsGetResult(v ssa.Value, f *ssa.Function, d int) bool {
 	}
 	switch x := v.(type) {
 	case *ssa.Call:
-		return isPoolCall(x, "Get")
+		return poolGetCall(x)
 	case *ssa.Phi:
 		for _, e := range x.Edges {
 			if !c20IsGetResult(core.Unwrap(e, true), f, d+1) {
